@@ -58,6 +58,37 @@ def h_explain(f, N):
     return body
 
 
+def h_reuse(f, N):
+    """the same specification object explains a first (symbolic) trace and is then evaluated and explained again on a
+    second symbolic trace: what is reported then must belong to the second trace only"""
+    f = T(f)
+    vs = sorted(variables(f))
+
+    def body(env):
+        A = env.A
+        s = dt.make_spec('offline', 'out = ' + text(f), vs)
+        w0 = dt.trace(env, vs, N, prefix='first_')
+        dt.offline(s, w0, N)
+        s.explain()
+        w = dt.trace(env, vs, N)
+        out = dt.offline(s, w, N)
+        s.explain()
+        expl = s.explainer.explanations
+        r0 = out[0][1]
+        reported = {v: sorted(positions(expl, v, N)) for v in vs}
+        env.observe('reported', [[len(reported[v])] for v in vs])
+        triggered = A.lt(r0, 0)
+        st = sat(A, f, w, N)
+        violated = A.And(triggered, A.Not(st[0]))
+        res = [('nothing-reported-when-not-negative', A.Or(triggered, A.bool(all(not reported[v] for v in vs))))]
+        w2 = dt.trace(env, vs, N, prefix='p_')
+        agree = A.And(*[A.eq(w2[v][i], w[v][i]) for v in vs for i in reported[v]])
+        st2 = sat(A, f, w2, N)
+        res.append(('sufficient-cause', A.Or(A.Not(violated), A.Not(agree), A.Not(st2[0]))))
+        return res
+    return body
+
+
 EXP_UN = ['not', 'always', 'eventually', 'once', 'historically', 'prev', 's_prev', 'next', 's_next', 'rise', 'fall']
 EXP_UNT = ['always_t', 'eventually_t', 'once_t', 'historically_t']
 EXP_BIN = ['and', 'or', 'implies', 'iff', 'xor']
@@ -92,6 +123,9 @@ def obligations(tier, rng):
         g = atoms_subst(f)
         for N in ([3] if quick else [2, 3, 4]):
             out.append(ob('C20', 'explain', 'F2/%s/N=%d' % (text(g), N), f=g, N=N, max_paths=40000, wall=900))
+    for f in [('geq', X, C), ('always_t', ('implies', ('geq', X, C), ('eventually_t', ('leq', Y, C), 0, 1)), 0, 1), ('or', ('geq', X, C), ('once', ('leq', Y, C))),
+              ('eventually', ('geq', X, C)), ('not', ('historically', ('geq', X, C)))]:
+        out.append(ob('C20', 'reuse', 'reuse/%s/N=3' % text(f), f=f, N=3, max_paths=40000, wall=600))
     # the same variable under two temporal operators with different (nested / overlapping) windows
     G1, G2 = ('gt', X, ('const', 0.0)), ('gt', X, ('const', 1.0))
     tops = [('eventually_t', 0, 5), ('always_t', 2, 3), ('eventually_t', 1, 2), ('always_t', 0, 4), ('once_t', 0, 1), ('historically_t', 0, 2),
